@@ -9,7 +9,7 @@ from . import c13
 
 ID = "C07"
 LEVEL = "fault_enumeration"
-RULE = ("Hypothesis programs (1-3 files, optional include) with 0-3 faults planted from the catalogue of vf/mutate.py (73 error/critical "
+RULE = ("Hypothesis programs (1-3 files, optional include) with 0-3 faults planted from the catalogue of vf/mutate.py (%d error/critical "
         "kinds spanning parse-time, compile-time, link-time and critical aborts; %d warning-only kinds), run through the CLI in 4 "
         "(quick) / 8 (thorough) configurations each: report format graphical|bare x a drawn -W list (class names, all, default, no- "
         "forms, unknown names) with a drawn output selection (-o with/without .bin, sub-directory, --implicit-bin, make_bin/make_raw/"
